@@ -9,6 +9,7 @@
 #include <cstring>
 #include <memory>
 #include <string>
+#include <map>
 #include <vector>
 #include "proto.hpp"
 #include "aligned_allocator.hpp"
@@ -196,23 +197,55 @@ struct Leaf<ID, true> : LeafBase<ID>
 };
 
 //=== tracker ===//
+// the trackers' own ledger (C09 "trackers see every successful operation exactly once"): how many allocation notifications
+// for a pointer have not been matched by a deallocation notification yet, with the shape they carried; a deallocation
+// notification for memory the trackers never saw allocated means a tracker was told about an operation that did not happen
+// on its allocator (nested trackers over the same allocator both see every pointer: hence counts)
+static std::map<void*, std::vector<std::string>> TRACKLIVE;
+static bool                                      TRACK_ORACLE = true; // off inside the reproducer of the recorded finding D24
+static void track_alloc(void* p, const std::string& shape)
+{
+    if (TRACK_ORACLE)
+        TRACKLIVE[p].push_back(shape);
+}
+static void track_dealloc(void* p, const std::string& shape)
+{
+    if (!TRACK_ORACLE)
+        return;
+    auto it = TRACKLIVE.find(p);
+    if (it == TRACKLIVE.end() || it->second.empty())
+    {
+        if (failures.size() < 20)
+            failures.push_back("tracker notified of a deallocation (" + shape + ") of memory no tracker saw allocated: the operation did not happen on its allocator");
+        return;
+    }
+    if (it->second.back() != shape && failures.size() < 20)
+        failures.push_back("tracker saw the allocation as " + it->second.back() + " and the deallocation as " + shape);
+    it->second.pop_back();
+    if (it->second.empty())
+        TRACKLIVE.erase(it);
+}
 struct Tracker
 {
-    void on_node_allocation(void*, std::size_t size, std::size_t align) noexcept
+    void on_node_allocation(void* p, std::size_t size, std::size_t align) noexcept
     {
         TRACKLOG.push_back(fmt("on_alloc:node:%zu:%zu", size, align));
+        track_alloc(p, fmt("node:%zu:%zu", size, align));
     }
-    void on_array_allocation(void*, std::size_t count, std::size_t size, std::size_t align) noexcept
+    void on_array_allocation(void* p, std::size_t count, std::size_t size, std::size_t align) noexcept
     {
         TRACKLOG.push_back(fmt("on_alloc:arr:%zu:%zu:%zu", count, size, align));
+        track_alloc(p, fmt("arr:%zu:%zu:%zu", count, size, align));
     }
-    void on_node_deallocation(void*, std::size_t size, std::size_t align) noexcept
+    void on_node_deallocation(void* p, std::size_t size, std::size_t align) noexcept
     {
         TRACKLOG.push_back(fmt("on_dealloc:node:%zu:%zu", size, align));
+        track_dealloc(p, fmt("node:%zu:%zu", size, align));
     }
-    void on_array_deallocation(void*, std::size_t count, std::size_t size, std::size_t align) noexcept
+    void on_array_deallocation(void* p, std::size_t count, std::size_t size, std::size_t align) noexcept
     {
         TRACKLOG.push_back(fmt("on_dealloc:arr:%zu:%zu:%zu", count, size, align));
+        track_dealloc(p, fmt("arr:%zu:%zu:%zu", count, size, align));
     }
 };
 
@@ -499,6 +532,7 @@ static void mra_cases(const char* expr, Rng& g)
 static void d24_case()
 {
     TRACKLOG.clear();
+    TRACK_ORACLE = false; // this scenario IS the recorded finding (reported below under its own name)
     static static_allocator_storage<1024>              storage;
     using A = tracked_allocator<Tracker, static_allocator>;
     memory_resource_adapter<A> r{A(Tracker{}, static_allocator(storage))};
@@ -510,6 +544,7 @@ static void d24_case()
     if (first.rfind("on_alloc:node:600", 0) == 0 && last.rfind("on_dealloc:node:600", 0) != 0)
         fail("known-D24 memory_resource_adapter over static_allocator: block obtained as `" + first + "` released as `" + last + "`");
     TRACKLOG.clear();
+    TRACK_ORACLE = true;
 }
 
 // block-level tracking (tracked_block_allocator / deeply_tracked_allocator): growth and shrinking events against the
